@@ -115,6 +115,17 @@ def run(ctx):
     r1.check(len(rts) >= 3, "round-trip-sites", "%d server round trips in the transaction loop (Q, Sync, CopyDone/Fail arms)" % len(rts), "expected >= 3 round-trip sites in the transaction loop, found %d" % len(rts))
 
     # ---------------- R4 one statement stream per guard
+    # `in session mode for the whole client session`: which of the two modes a client runs in is Client.transaction_mode, set at login from the pool's
+    # PoolSettings.pool_mode - and that is the user's own pool_mode when the user has one (a user can ask for session mode inside a transaction-mode pool)
+    from common import user_override_findings
+    uof = user_override_findings(F)
+    if uof is None:
+        r3.missing("from_config / config::User / config::Pool")
+    else:
+        pm = [x for x in uof if x[0] == "pool_mode"]
+        r3.check(bool(pm) and pm[0][1], "mode-is-the-users-own", "PoolSettings.pool_mode derives from the user's pool_mode as well as from the pool's (the user's wins)",
+                 "the pool mode a client is given derives from the pool section alone (%s): a user configured with `pool_mode = \"session\"` in a transaction-mode pool is pooled per transaction - after each of its "
+                 "transactions its server connection is cleaned and handed to the next client, in the middle of its session" % (pm[0][3] if pm else "pool_mode not found"))
     r4 = ctx.rule("C01-R4", "every Server method call and every helper that talks to a server in handle operates on the connection obtained from this iteration's checkout", floor=8)
     k = 0
     for c in h.calls("re:^pgcat::server::Server::[a-z_]+$"):
@@ -214,6 +225,10 @@ def run(ctx):
         r8.check(ok, "in-step:" + key, okmsg, failmsg + " - from then on the status byte pgcat sees belongs to the previous request: after a client's BEGIN the connection looks idle and is released inside the open transaction")
     for key, ok, okmsg, failmsg in own_request_findings(F)[0]:
         r8.check(ok, "in-step:" + key, okmsg, failmsg)
+    from common import recv_handout_findings
+    for key, ok, okmsg, failmsg in recv_handout_findings(F):
+        if ok is not None:
+            r8.check(ok, "in-step:" + key, okmsg, failmsg + " - with the status byte of the reply's ReadyForQuery still unread, in_transaction is the previous request's")
 
     # ---------------- R9 a connection abandoned between claim and check-in is not handed on
     r9 = ctx.rule("C01-R9", "a connection that a client claimed and left without a completed checkin_cleanup (any `?` exit of handle between checkout and check-in, a panic, a dropped future) is discarded by the pool: "
